@@ -4,7 +4,7 @@
    DESIGN.md). *)
 From Coq Require Import List ZArith Bool.
 From JSL Require Import Base.Res Base.ListX SM.Types SM.Util SM.Handler SM.Step SM.Inv
-  SMP.Post SMP.PostApply SMP.Offers SMP.Clock SM.Middleware SM.ExampleShift SMP.StepInv SMP.LiftSide SMP.OutputDone SMP.Reflect SMP.LiftProv SMP.ProvBatch SMP.Durations.
+  SMP.Post SMP.PostApply SMP.Offers SMP.Clock SM.Middleware SM.ExampleShift SMP.StepInv SMP.LiftSide SMP.OutputDone SMP.Reflect SMP.LiftProv SMP.ProvBatch SMP.Durations SM.Events SMP.EventsRun.
 Import ListNotations.
 
 (* SETUP->WORKING: the operation is stamped start = now, planned end = now + d where d is the configured
@@ -138,3 +138,18 @@ Proof.
   destruct (runG sh_sigma sh_inst side2 200 sh_init0 3%Z true [1;1;1;1]%Z) as [[r m]|] eqn:E; [|vm_compute in E; discriminate].
   exists r, m. split; [eapply reachG_reach; eapply runG_reach; exact E|]. vm_compute in E. inversion E; subst. vm_compute. split; reflexivity.
 Qed.
+
+(* over whole runs of every instance: every entry (tr, y) of the micro-log of EVERY decision of EVERY run was applied to a state x1
+   (the micro-state before it, up to the clock) of which the event clauses the monitors evaluate are true - in particular ev_work
+   (SETUP -> WORKING stamps start = now, end = now + d with d the duration drawn now for the configured operation, on the
+   configured machine), ev_machine_outage (the end is extended by exactly the longest outage sampled now) and
+   ev_machine_release (DONE with end = now, start kept). SMP/EventsOk.v proves the clauses of every applied transition from the
+   run invariants, SMP/EventsRun.v lifts them along the witnessed chain of applications (LiftProv chainW). *)
+Theorem C02_duration_events_hold_along_every_run :
+  forall (sigma : oracle) (i : inst) (fuel : nat) (x0 : state) (joker0 : Z) (ta : bool) (r : result) (m : mw)
+         (a : Z) (r' : result) (m' : mw) (lg : mlog),
+    inst_nonneg_b i = true ->
+    clock_b x0 = true -> wfs_b i x0 = true -> fresh2_b i x0 = true -> nodep_b x0 = true -> pre_ok_b x0 = true ->
+    reach sigma i fuel x0 joker0 ta r m -> mw_step sigma i fuel r m a = MOk r' m' lg -> chain_events i (r_x r) lg.
+Proof. intros sigma i fuel x0 joker0 ta r m a r' m' lg Hnn. apply run_events_ok; auto. Qed.
+Print Assumptions C02_duration_events_hold_along_every_run.
